@@ -1,0 +1,338 @@
+//go:build verif
+
+// Contracts for package klevdb, checked by /verif/engine (govc).
+// This file contains comments only; it never changes the compiled package.
+
+package klevdb
+
+/*@
+
+// ================================================================ vocabulary
+
+pred relative(o int64) := o == message.OffsetOldest || o == message.OffsetNewest
+
+pred sortedOff(items []index.Item) :=
+    forall i, j :: 0 <= i && i < j && j < len(items) ==> items[i].Offset < items[j].Offset
+
+pred monoTs(items []index.Item) :=
+    forall i, j :: 0 <= i && i <= j && j < len(items) ==> items[i].Timestamp <= items[j].Timestamp
+
+pred posOK(items []index.Item) :=
+    forall i :: 0 <= i && i < len(items) ==> items[i].Position >= 0
+
+pred offNonNeg(items []index.Item) :=
+    forall i :: 0 <= i && i < len(items) ==> items[i].Offset >= 0
+
+pred smallLen(items []index.Item) := len(items) <= 1152921504606846976
+
+// well-formed item list with its next offset
+pred wfItems(items []index.Item, next int64) :=
+    sortedOff(items) && posOK(items) && offNonNeg(items) && smallLen(items) && next >= 0
+    && (len(items) > 0 ==> next == items[len(items)-1].Offset + 1)
+
+// ---------------------------------------------------------------- the indexer abstraction
+// An indexer is a *readerIndex or a *writerIndex; these three functions are its abstract view.
+
+pred isRIx(ix indexer) := typeis(ix, *readerIndex)
+pred isWIx(ix indexer) := typeis(ix, *writerIndex)
+pred ixItems(ix indexer) := ite(isRIx(ix), ix.(*readerIndex).items, ix.(*writerIndex).items)
+pred ixNext(ix indexer)  := ite(isRIx(ix), ix.(*readerIndex).nextOffset, ix.(*writerIndex).nextOffset)
+pred ixHead(ix indexer)  := ite(isRIx(ix), ix.(*readerIndex).head, true)
+pred ixWf(ix indexer) :=
+    (isRIx(ix) || isWIx(ix)) && ix.(*readerIndex) != nil && wfItems(ixItems(ix), ixNext(ix))
+
+// first position at or after offset (lower bound), as a relation on the result
+pred isLowerBound(items []index.Item, offset int64, pos int64) :=
+    exists k :: 0 <= k && k < len(items) && pos == items[k].Position
+                && items[k].Offset >= offset && (k == 0 || items[k-1].Offset < offset)
+
+// ================================================================ readerIndex / writerIndex (C03, C04, C10)
+
+iface indexer.GetNextOffset
+    requires ixWf(self)
+    ensures err == nil && ret0 == ixNext(self)
+
+iface indexer.Len
+    requires ixWf(self)
+    ensures ret0 == len(ixItems(self))
+
+iface indexer.Consume
+    requires ixWf(self)
+    // caught up: nothing at or after the request in a head segment
+    ensures[caughtup] (len(ixItems(self)) == 0 || (!relative(offset) && offset > ixItems(self)[len(ixItems(self))-1].Offset))
+                      && ixHead(self) && offset <= ixNext(self)
+                      ==> err == nil && ret0 == -1 && ret1 == -1 && ret2 == ixNext(self)
+    // non-head segment: exactly ErrOffsetAfterEnd (the caller compares by identity)
+    ensures[afterend] len(ixItems(self)) > 0 && !relative(offset) && offset > ixItems(self)[len(ixItems(self))-1].Offset
+                      && !(ixHead(self) && offset <= ixNext(self))
+                      ==> err == index.ErrOffsetAfterEnd
+    ensures[empty]    len(ixItems(self)) == 0 && !(ixHead(self) && offset <= ixNext(self)) ==> err == index.ErrOffsetIndexEmpty
+    ensures[found]    len(ixItems(self)) > 0 && (relative(offset) || offset <= ixItems(self)[len(ixItems(self))-1].Offset)
+                      ==> err == nil && ret2 == offset && ret1 == ixItems(self)[len(ixItems(self))-1].Position && ret0 >= 0
+    ensures[oldest]   len(ixItems(self)) > 0 && offset == message.OffsetOldest ==> ret0 == ixItems(self)[0].Position
+    ensures[newest]   len(ixItems(self)) > 0 && offset == message.OffsetNewest ==> ret0 == ixItems(self)[len(ixItems(self))-1].Position
+    ensures[lowerbound] len(ixItems(self)) > 0 && !relative(offset) && offset <= ixItems(self)[len(ixItems(self))-1].Offset
+                      ==> isLowerBound(ixItems(self), offset, ret0)
+    ensures[errs]     err == nil || err == index.ErrOffsetAfterEnd || err == index.ErrOffsetIndexEmpty
+
+iface indexer.Get
+    requires ixWf(self)
+    ensures[found]    !relative(offset) ==>
+                        forall k :: 0 <= k && k < len(ixItems(self)) && ixItems(self)[k].Offset == offset ==> err == nil && ret0 == ixItems(self)[k].Position
+    ensures[exact]    !relative(offset) && err == nil ==>
+                        (exists k :: 0 <= k && k < len(ixItems(self)) && ixItems(self)[k].Offset == offset && ret0 == ixItems(self)[k].Position)
+    ensures[oldest]   len(ixItems(self)) > 0 && offset == message.OffsetOldest ==> err == nil && ret0 == ixItems(self)[0].Position
+    ensures[newest]   len(ixItems(self)) > 0 && offset == message.OffsetNewest ==> err == nil && ret0 == ixItems(self)[len(ixItems(self))-1].Position
+    ensures[empty]    len(ixItems(self)) == 0 ==> err == index.ErrOffsetIndexEmpty
+    ensures[before]   len(ixItems(self)) > 0 && !relative(offset) && offset < ixItems(self)[0].Offset ==> err == index.ErrOffsetBeforeStart
+    // after the last item: not assigned yet in the head (invalid offset), after-end elsewhere
+    ensures[unassigned] len(ixItems(self)) > 0 && !relative(offset) && offset > ixItems(self)[len(ixItems(self))-1].Offset && ixHead(self)
+                      ==> err == message.ErrInvalidOffset
+    ensures[afterend] len(ixItems(self)) > 0 && !relative(offset) && offset > ixItems(self)[len(ixItems(self))-1].Offset && !ixHead(self)
+                      ==> err == index.ErrOffsetAfterEnd
+    ensures[missing]  len(ixItems(self)) > 0 && !relative(offset) && ixItems(self)[0].Offset <= offset && offset <= ixItems(self)[len(ixItems(self))-1].Offset
+                      && (forall k :: 0 <= k && k < len(ixItems(self)) ==> ixItems(self)[k].Offset != offset) ==> err == index.ErrOffsetNotFound
+    ensures[errs]     err == nil || err == index.ErrOffsetIndexEmpty || err == index.ErrOffsetBeforeStart || err == index.ErrOffsetAfterEnd
+                      || err == index.ErrOffsetNotFound || err == message.ErrInvalidOffset
+
+iface indexer.Time
+    requires ixWf(self) && monoTs(ixItems(self))
+    ensures[empty]  len(ixItems(self)) == 0 ==> err == index.ErrTimeIndexEmpty
+    ensures[before] len(ixItems(self)) > 0 && ts < ixItems(self)[0].Timestamp ==> err == index.ErrTimeBeforeStart
+    ensures[after]  len(ixItems(self)) > 0 && ixItems(self)[len(ixItems(self))-1].Timestamp < ts ==> err == index.ErrTimeAfterEnd
+    ensures[lowerbound] len(ixItems(self)) > 0 && ixItems(self)[0].Timestamp <= ts && ts <= ixItems(self)[len(ixItems(self))-1].Timestamp ==>
+                        err == nil && (exists k :: 0 <= k && k < len(ixItems(self)) && ret0 == ixItems(self)[k].Position
+                                        && ixItems(self)[k].Timestamp >= ts
+                                        && (forall i :: 0 <= i && i < k ==> ixItems(self)[i].Timestamp < ts))
+    ensures[errs]   err == nil || err == index.ErrTimeIndexEmpty || err == index.ErrTimeBeforeStart || err == index.ErrTimeAfterEnd
+
+func (*readerIndex).GetNextOffset
+    refines indexer.GetNextOffset
+    ensures err == nil && ret0 == ix.nextOffset
+func (*readerIndex).Len
+    refines indexer.Len
+    ensures ret0 == len(ix.items)
+func (*readerIndex).Consume
+    refines indexer.Consume
+    requires wfItems(ix.items, ix.nextOffset)
+func (*readerIndex).Get
+    refines indexer.Get
+    requires wfItems(ix.items, ix.nextOffset)
+func (*readerIndex).Time
+    refines indexer.Time
+    requires wfItems(ix.items, ix.nextOffset) && monoTs(ix.items)
+
+func (*writerIndex).GetNextOffset
+    refines indexer.GetNextOffset
+    ensures err == nil && ret0 == ix.nextOffset
+func (*writerIndex).Len
+    refines indexer.Len
+    ensures ret0 == len(ix.items)
+func (*writerIndex).Consume
+    refines indexer.Consume
+    requires wfItems(ix.items, ix.nextOffset)
+func (*writerIndex).Get
+    refines indexer.Get
+    requires wfItems(ix.items, ix.nextOffset)
+func (*writerIndex).Time
+    refines indexer.Time
+    requires wfItems(ix.items, ix.nextOffset) && monoTs(ix.items)
+
+
+// ================================================================ segment reader (C03, C04, C10, C14)
+// Ghost view of one segment: its logical index items, its next offset and the
+// abstract content of its log file.
+
+ghost field reader.gitems []index.Item
+ghost field reader.gnext int64
+ghost field reader.gfile int
+ghost field reader.ghead bool          // logically the head (appendable) segment
+
+pred sameItems(a []index.Item, b []index.Item) :=
+    len(a) == len(b) && (forall k :: 0 <= k && k < len(a) ==> a[k] == b[k])
+
+// the loaded index (if any) agrees with the ghost view
+pred ixAgrees(ix indexer, r *reader) :=
+    ixWf(ix) && sameItems(ixItems(ix), r.gitems) && ixNext(ix) == r.gnext && ixHead(ix) == r.ghead
+
+pred rdWf(r *reader) :=
+    r != nil && wfItems(r.gitems, r.gnext) && derived(r.gitems, r.gfile, r.params) && wfLog(r.gfile)
+    && monoTs(r.gitems)
+    && fsContent[r.segment.Log] == r.gfile
+    && r.segment.Offset >= 0
+    && (len(r.gitems) == 0 ==> r.gnext == r.segment.Offset) && (len(r.gitems) > 0 ==> r.segment.Offset <= r.gitems[0].Offset)
+    && (r.index != nil ==> ixAgrees(r.index, r)) && (r.index == nil ==> r.head == r.ghead)
+    && (r.messages != nil ==> r.messages.gfile == r.gfile)
+
+func (*reader).GetOffset
+    def r.segment.Offset
+
+func newReaderIndex
+    requires wfItems(items, ite(len(items) > 0, items[len(items)-1].Offset + 1, offset)) && offset >= 0
+    ensures ret0 != nil && fresh(ret0) && ret0.items == items && ret0.head == head
+    ensures len(items) > 0 ==> ret0.nextOffset == items[len(items)-1].Offset + 1
+    ensures len(items) == 0 ==> ret0.nextOffset == offset
+
+// loads (or rebuilds) the index lazily; the I/O below it is assumed: see ReindexAndReadIndex
+func (*reader).getIndexMarked
+    requires rdWf(r)
+    assigns r.index
+    ensures err == nil ==> ixAgrees(ret0, r) && r.index == ret0
+    ensures err != nil ==> r.index == old(r.index) && ioerr(err)
+
+func (*reader).getIndexNow
+    requires rdWf(r)
+    assigns r.index, r.indexLastAccess
+    ensures err == nil ==> ixAgrees(ret0, r) && r.index == ret0
+    ensures err != nil ==> r.index == old(r.index) && ioerr(err)
+
+func (*reader).getIndexAt
+    requires rdWf(r)
+    assigns r.index, r.indexLastAccess
+    ensures err == nil ==> ixAgrees(ret0, r) && r.index == ret0
+    ensures err != nil ==> r.index == old(r.index) && ioerr(err)
+
+// opens the mmap reader lazily (I/O assumed: the reader sees the segment's file)
+func (*reader).getMessages
+    flags assumed
+    requires rdWf(r)
+    assigns r.messages, r.messagesInuse
+    ensures err == nil ==> ret0 != nil && ret0.gfile == r.gfile && r.messages == ret0
+    ensures err != nil ==> r.messages == old(r.messages) && ioerr(err)
+
+func (*reader).GetNextOffset
+    requires rdWf(r)
+    assigns r.index, r.indexLastAccess
+    ensures err == nil ==> ret0 == r.gnext
+    ensures rdWf(r)
+
+func (*reader).Consume
+    requires rdWf(r)
+    requires[count] 1 <= maxCount && maxCount <= 1048576
+    assigns r.index, r.indexLastAccess, r.messages, r.messagesInuse
+    ensures[wf]       rdWf(r)
+    ensures[newest]   offset == message.OffsetNewest && err == nil ==> ret0 == r.gnext && len(ret1) == 0
+    // nothing returned: only in the head segment, caught up at its next offset, nothing live at or after the request
+    ensures[caughtup] err == nil && len(ret1) == 0 ==>
+                          ret0 == r.gnext && (offset == message.OffsetNewest ||
+                             (r.ghead && offset <= r.gnext && (len(r.gitems) == 0 || (!relative(offset) && offset > r.gitems[len(r.gitems)-1].Offset))))
+    // a contiguous run of the segment's records starting at the first one at or after the request
+    ensures[run]      err == nil && len(ret1) > 0 ==>
+                          (exists a :: 0 <= a && a < len(r.gitems)
+                               && (offset == message.OffsetOldest ==> a == 0)
+                               && (!relative(offset) ==> r.gitems[a].Offset >= offset && (a == 0 || r.gitems[a-1].Offset < offset))
+                               && len(ret1) == min(maxCount, int64(len(r.gitems) - a)) && r.gitems[a].Offset == ret1[0].Offset
+                               && (forall j :: 0 <= j && j < len(ret1) ==> isRec(ret1[j], r.gfile, a + j) && ret1[j].Offset == r.gitems[a+j].Offset))
+    ensures[next]     err == nil && len(ret1) > 0 ==> ret0 == ret1[len(ret1)-1].Offset + 1
+    ensures[some]     err == nil && offset != message.OffsetNewest && len(r.gitems) > 0 && (offset == message.OffsetOldest || offset <= r.gitems[len(r.gitems)-1].Offset) ==> len(ret1) > 0
+    ensures[afterend] !relative(offset) && len(r.gitems) > 0 && offset > r.gitems[len(r.gitems)-1].Offset && !(r.ghead && offset <= r.gnext)
+                          ==> err == index.ErrOffsetAfterEnd || ioerr(err)
+    // the caller compares by identity: ErrOffsetAfterEnd means exactly "request is past this segment's last message"
+    ensures[afterend_only] err == index.ErrOffsetAfterEnd ==>
+                          !relative(offset) && len(r.gitems) > 0 && offset > r.gitems[len(r.gitems)-1].Offset
+    ensures[invalid]  err == nil ==> offset <= r.gnext
+    ensures[errs]     err == nil || err == index.ErrOffsetAfterEnd || err == index.ErrOffsetIndexEmpty || ioerr(err)
+    ensures[failed]   err != nil ==> ret0 == OffsetInvalid && len(ret1) == 0
+
+func (*reader).Get
+    requires rdWf(r)
+    assigns r.index, r.indexLastAccess, r.messages, r.messagesInuse
+    ensures[wf]      rdWf(r)
+    ensures[found]   !relative(offset) && err == nil ==>
+                         (exists k :: 0 <= k && k < len(r.gitems) && r.gitems[k].Offset == offset && isRec(ret0, r.gfile, k))
+    ensures[oldest]  offset == message.OffsetOldest && err == nil ==> len(r.gitems) > 0 && isRec(ret0, r.gfile, 0)
+    ensures[newest]  offset == message.OffsetNewest && err == nil ==> len(r.gitems) > 0 && isRec(ret0, r.gfile, len(r.gitems)-1)
+    ensures[failed]  err != nil ==> ret0 == message.Invalid
+
+
+// ================================================================ the log (C03, C04)
+// INV: at least one segment; bases strictly increasing (I2); every segment well formed;
+// every non-head segment non-empty and entirely below the next base (I5); only the last is the head.
+
+pred logWf(l *log) :=
+    l != nil && len(l.readers) >= 1 && len(l.readers) <= 1152921504606846976
+    && (forall i :: 0 <= i && i < len(l.readers) ==> rdWf(l.readers[i]))
+    && (forall i, j :: 0 <= i && i < j && j < len(l.readers) ==> l.readers[i] != l.readers[j]
+                        && l.readers[i].segment.Offset < l.readers[j].segment.Offset)
+    && (forall i :: 0 <= i && i < len(l.readers) - 1 ==>
+            len(l.readers[i].gitems) > 0 && !l.readers[i].ghead
+            && l.readers[i].gnext <= l.readers[i+1].segment.Offset)
+    && l.readers[len(l.readers)-1].ghead
+
+pred logNext(l *log) := l.readers[len(l.readers)-1].gnext
+
+// offset o is live: some segment's index holds it
+pred live(l *log, o int64) :=
+    exists i, k :: 0 <= i && i < len(l.readers) && 0 <= k && k < len(l.readers[i].gitems) && l.readers[i].gitems[k].Offset == o
+
+func (*log).Consume
+    requires logWf(l)
+    requires[count] 1 <= maxCount && maxCount <= 1048576
+    assigns reader.index, reader.indexLastAccess, reader.messages, reader.messagesInuse
+    ensures[wf]      logWf(l)
+    ensures[newest]  offset == message.OffsetNewest && err == nil ==> ret0 == logNext(l) && len(ret1) == 0
+    ensures[beyond]  offset > logNext(l) ==> err != nil
+    ensures[sorted]  err == nil ==> forall j :: 0 <= j && j < len(ret1) - 1 ==> ret1[j].Offset < ret1[j+1].Offset
+    ensures[count]   err == nil ==> len(ret1) <= maxCount
+    ensures[next]    err == nil && len(ret1) > 0 ==> ret0 == ret1[len(ret1)-1].Offset + 1
+    ensures[caughtup] err == nil && len(ret1) == 0 ==> ret0 == logNext(l)
+    ensures[islive]  err == nil ==> forall j :: 0 <= j && j < len(ret1) ==> live(l, ret1[j].Offset)
+    ensures[from]    err == nil && !relative(offset) ==> forall j :: 0 <= j && j < len(ret1) ==> ret1[j].Offset >= offset
+    // gap-free: no live offset between the request and the first returned message,
+    // between two returned messages, or (when nothing is returned) at or after the request
+    ensures[nogap_first] err == nil && len(ret1) > 0 && !relative(offset) ==>
+                         forall o int64 :: live(l, o) && offset <= o ==> ret1[0].Offset <= o
+    ensures[nogap_oldest] err == nil && len(ret1) > 0 && offset == message.OffsetOldest ==>
+                         forall o int64 :: live(l, o) ==> ret1[0].Offset <= o
+    // the returned messages are a contiguous slice of ONE segment's records, with their stored content
+    // (lemma contiguousRun: nothing live lies between two neighbours of a segment)
+    ensures[run]     err == nil && len(ret1) > 0 ==>
+                         (exists i, a :: 0 <= i && i < len(l.readers) && 0 <= a && a + len(ret1) <= len(l.readers[i].gitems)
+                             && l.readers[i].gitems[a].Offset == ret1[0].Offset
+                             && (forall j :: 0 <= j && j < len(ret1) ==>
+                                     ret1[j].Offset == l.readers[i].gitems[a+j].Offset && isRec(ret1[j], l.readers[i].gfile, a+j)))
+    ensures[nogap_empty] err == nil && len(ret1) == 0 && !relative(offset) ==> forall o int64 :: live(l, o) ==> o < offset
+    ensures[empty_log]   err == nil && len(ret1) == 0 && offset == message.OffsetOldest ==> forall o int64 :: !live(l, o)
+
+    // proof hints: name the segment the run comes from at each return
+    assert[handoff] err == nil && len(ret1) > 0 ==>
+        (exists a :: 0 <= a && a + len(ret1) <= len(l.readers[segmentIndex+1].gitems)
+             && l.readers[segmentIndex+1].gitems[a].Offset == ret1[0].Offset
+             && (forall j :: 0 <= j && j < len(ret1) ==>
+                     ret1[j].Offset == l.readers[segmentIndex+1].gitems[a+j].Offset && isRec(ret1[j], l.readers[segmentIndex+1].gfile, a+j)))
+        at return 1
+    assert[direct] err == nil && len(ret1) > 0 ==>
+        (exists a :: 0 <= a && a + len(ret1) <= len(l.readers[segmentIndex].gitems)
+             && l.readers[segmentIndex].gitems[a].Offset == ret1[0].Offset
+             && (forall j :: 0 <= j && j < len(ret1) ==>
+                     ret1[j].Offset == l.readers[segmentIndex].gitems[a+j].Offset && isRec(ret1[j], l.readers[segmentIndex].gfile, a+j)))
+        at return 2
+
+    assert[nogap_handoff] err == nil && len(ret1) > 0 && !relative(offset) ==>
+        (forall o int64 :: live(l, o) && offset <= o ==> ret1[0].Offset <= o)
+        at return 1
+    assert[nogap_direct] err == nil && len(ret1) > 0 && !relative(offset) ==>
+        (forall o int64 :: live(l, o) && offset <= o ==> ret1[0].Offset <= o)
+        at return 2
+
+func (*log).NextOffset
+    requires logWf(l) && (l.opts.Readonly || l.writer != nil && l.writer.index != nil && l.writer.index.nextOffset == logNext(l))
+    assigns reader.index, reader.indexLastAccess
+    ensures err == nil ==> ret0 == logNext(l)
+    ensures logWf(l)
+
+
+// nothing live lies strictly between two neighbouring items of a segment (uses I2, I5 and sortedness)
+lemma contiguousRun(l *log, i int, k int, o int64)
+    requires logWf(l) && 0 <= i && i < len(l.readers) && 0 <= k && k + 1 < len(l.readers[i].gitems)
+    requires live(l, o) && l.readers[i].gitems[k].Offset < o
+    ensures  l.readers[i].gitems[k+1].Offset <= o
+
+// iterating Consume: a cursor that has passed every live offset below c keeps that property
+lemma cursorStep(l *log, c int64, first int64, last int64, o int64)
+    requires logWf(l) && live(l, o)
+    requires forall p int64 :: live(l, p) && c <= p ==> first <= p      // nogap_first
+    requires o < last + 1 && !(o < c) && first <= last
+    ensures  first <= o && o <= last
+
+@*/
